@@ -250,6 +250,16 @@ def run_case(case, ctx):
                     with open(p_, "wb") as f_:
                         f_.write(b"not in the archive")
                     src_bytes[p_] = b"not in the archive"
+            # where extraction writes: NAME.EXT of every source, beside the archive (tape) or in its sideN directories (disk). A source that happens to live
+            # exactly there (side0/AUTO.BAT when another source, auto.BAT, is stored under that name) is legitimately replaced by the member of that name
+            labels = set()
+            for s_ in case["sources"]:
+                if "arg" in s_:
+                    b_ = os.path.basename(s_["arg"])
+                    b_ = b_[:-2] if b_[-2:].upper() == ",A" else b_
+                    n_, _, e_ = b_.rpartition(".") if "." in b_ else (b_, "", "")
+                    labels.add(n_.upper()[:8] + "." + e_.upper()[:3])
+            overwritable = {os.path.join(cd.cwd, lab) for lab in labels} | {os.path.join(cd.cwd, f"side{i}", lab) for i in range(4) for lab in labels}
             for act in ("-t", "-x", "-x", "-t"):
                 if tape:
                     r = run_tool(ctx, "tar", [act, arch], cd)
@@ -262,7 +272,7 @@ def run_case(case, ctx):
                     bad = {"the archive was opened for writing by": act}
                     break
                 for p, c in src_bytes.items():
-                    if not os.path.exists(p) or open(p, "rb").read() != c:
+                    if not os.path.exists(p) or (open(p, "rb").read() != c and p not in overwritable):
                         # extraction next to the archive may legitimately rewrite a same-named file with the same bytes
                         bad = {"a source file (or a file that is not in the archive) was altered or removed by": act, "file": os.path.relpath(p, cd.root)}
                         break
